@@ -87,8 +87,19 @@ func udpBound(port int) bool {
 	return false
 }
 
-// runC31 returns what was observed: "refused", "plaintext:<datagram names>", "dtls-handshake", "listening", "inconclusive: ..."
 func runC31(c c31combo) string {
+	r := ""
+	for try := 0; try < 4; try++ {
+		r = runC31once(c)
+		if !strings.Contains(r, "address already in use") {
+			return r
+		}
+	}
+	return "inconclusive: no free port"
+}
+
+// runC31once returns what was observed: "refused", "plaintext:<datagram names>", "dtls-handshake", "listening", "inconclusive: ..."
+func runC31once(c c31combo) string {
 	args, env := c.args()
 	if c.tool == "bisquitt" {
 		b, err := newMQBroker()
